@@ -236,7 +236,7 @@ func RunC10(cfg simrt.Config, o world.Opts) *world.Result {
 	outDir := filepath.Join(base, fmt.Sprintf("w%d", o.Worker), "c10out")
 	s.Inline(func() {
 		p := progen.Gen(progen.Options{MaxFiles: 5, MaxDefs: 5, Unhashable: true, Annotations: true, Consts: true, ConstRefs: true, Unions: true, Exceptions: true, Defaults: true,
-			SameNames: true, Recursive: true, StructConsts: true, WantService: simrt.Flip("c10.want-service", 0.7), GoNames: simrt.Flip("c10.go-names", 0.5)})
+			SameNames: true, Recursive: true, RecDefaults: true, StructConsts: true, WantService: simrt.Flip("c10.want-service", 0.7), GoNames: simrt.Flip("c10.go-names", 0.5)})
 		var g genOptsC10
 		if simrt.Flip("c10.options", 0.5) {
 			g.NoRecurse = simrt.Flip("opt.no-recurse", 0.2)
@@ -315,7 +315,7 @@ func RunC10(cfg simrt.Config, o world.Opts) *world.Result {
 				continue
 			}
 			if got.ok != first.ok || (got.panic != "") != (first.panic != "") {
-				res.Failf("C10/order-dependent-outcome", "%s -> ok=%v (%s) but %s -> ok=%v (%s)", firstDesc, first.ok, first80(first.err+first.panic), desc, got.ok, first80(got.err+got.panic))
+				res.Failf("C10/order-dependent-outcome", "%s%s -> ok=%v (%s) but %s -> ok=%v (%s)", f6Shape(p, first.err+" "+got.err), firstDesc, first.ok, first80(first.err+first.panic), desc, got.ok, first80(got.err+got.panic))
 				return
 			}
 			if !got.ok {
